@@ -18,6 +18,7 @@ type SpecCtx struct {
 	qvars     map[string]bool
 	brkBefore string // for fresh(): allocation watermark before the call
 	callee    bool   // evaluating a callee's contract at a call site: the caller's locals are not visible
+	inLet     map[string]bool // let-names being expanded (no recursion)
 }
 
 func (g *Gen) specCtx(env map[string]*Val, cur, old *State) *SpecCtx {
@@ -78,6 +79,19 @@ func (sc *SpecCtx) eval(e *SExpr) (*Val, error) {
 		}
 		if v, ok := sc.env[e.Name]; ok {
 			return v, nil
+		}
+		if !sc.callee && g.con != nil {
+			// //verif:let name = expr: a contract-chosen name for a value identified by
+			// what it IS (a call's result or argument, ...) instead of by the source
+			// name of a local variable
+			if le, ok := g.con.Lets[e.Name]; ok && !sc.inLet[e.Name] {
+				sub := *sc
+				sub.inLet = map[string]bool{e.Name: true}
+				for k := range sc.inLet {
+					sub.inLet[k] = true
+				}
+				return sub.eval(le)
+			}
 		}
 		if sc.callee {
 			if g.eng.preludeSyms[e.Name] {
